@@ -789,26 +789,33 @@ def rewrite(toks, pat_text, repl_text, count, unit_line, log, what, nth=None):
     return out
 
 
-def capture_only(toks, pat_text, unit_line, log, what):
+def _pick(ms, nth, what, pat_text, unit_line, kind):
+    if nth is None:
+        if len(ms) != 1:
+            raise Maintenance('%s: %s pattern `%s` matched %d time(s), expected 1 (unit line %d)' % (
+                what, kind, ' '.join(pat_text.split())[:400], len(ms), unit_line))
+        return ms[0]
+    if len(ms) < nth:
+        raise Maintenance('%s: %s pattern `%s` matched %d time(s), need match #%d (unit line %d)' % (
+            what, kind, ' '.join(pat_text.split())[:400], len(ms), nth, unit_line))
+    return ms[nth - 1]
+
+
+def capture_only(toks, pat_text, unit_line, log, what, nth=None):
     """R15 helper: the pattern must match exactly once anywhere inside the item; returns its captures (used by a later slice)."""
     pat = Pat(pat_text)
     ms = find_matches(pat, toks)
-    if len(ms) != 1:
-        raise Maintenance('%s: capture pattern `%s` matched %d time(s), expected 1 (unit line %d)' % (
-            what, ' '.join(pat_text.split())[:400], len(ms), unit_line))
-    log.append((what, toks[ms[0][0]].file, toks[ms[0][0]].line, 'captured `%s`' % ' '.join(render(toks[ms[0][0]:ms[0][1]]).split())[:160]))
-    return ms[0][2]
+    m = _pick(ms, nth, what, pat_text, unit_line, 'capture')
+    log.append((what, toks[m[0]].file, toks[m[0]].line, 'captured `%s`' % ' '.join(render(toks[m[0]:m[1]]).split())[:160]))
+    return m[2]
 
 
-def slice_item(toks, pat_text, repl_text, unit_line, log, what, extra_caps=None):
+def slice_item(toks, pat_text, repl_text, unit_line, log, what, extra_caps=None, nth=None):
     """R15 (deep form): the pattern must match exactly once anywhere inside the item (at any nesting depth); the WHOLE item is
     replaced by the instantiated replacement (a function made of the captured statements)."""
     pat = Pat(pat_text)
     ms = find_matches(pat, toks)
-    if len(ms) != 1:
-        raise Maintenance('%s: slice pattern `%s` matched %d time(s), expected 1 (unit line %d)' % (
-            what, ' '.join(pat_text.split())[:400], len(ms), unit_line))
-    (s, e, caps) = ms[0]
+    (s, e, caps) = _pick(ms, nth, what, pat_text, unit_line, 'slice')
     if extra_caps:
         caps = dict(extra_caps, **caps)
     rep = instantiate(repl_text, caps, unit_line)
